@@ -137,7 +137,7 @@ func main() {
 			}
 			astutil.AddImport(p.Fset, f, simrtPath)
 			// drop imports that became unused through the rewrites
-			for _, imp := range []string{"github.com/oklog/ulid/v2", "maps", "golang.org/x/exp/maps"} {
+			for _, imp := range []string{"github.com/oklog/ulid/v2", "maps", "golang.org/x/exp/maps", "os", "time"} {
 				if !astutil.UsesImport(f, imp) {
 					astutil.DeleteImport(p.Fset, f, imp)
 				}
@@ -519,10 +519,28 @@ func (in *instr) rewriteCall(c *astutil.Cursor, call *ast.CallExpr) {
 		call.Args = []ast.Expr{strLit(site)}
 		in.changed = true
 		return
-	case "time.Now", "time.Since", "time.Sleep", "time.After", "time.Tick", "time.NewTimer", "time.NewTicker", "time.AfterFunc",
+	case "time.Now":
+		if in.full {
+			site := in.site("clock", call.Pos(), "")
+			in.rep.ULIDSites = append(in.rep.ULIDSites, site)
+			call.Fun = &ast.SelectorExpr{X: ast.NewIdent("simrt"), Sel: ast.NewIdent("Now")}
+			call.Args = []ast.Expr{strLit(site)}
+			in.changed = true
+		}
+		return
+	case "os.Getenv", "os.LookupEnv":
+		if in.full {
+			site := in.site("env", call.Pos(), "")
+			in.rep.ULIDSites = append(in.rep.ULIDSites, site)
+			call.Fun = &ast.SelectorExpr{X: ast.NewIdent("simrt"), Sel: ast.NewIdent(fn.Name())}
+			call.Args = append(call.Args, strLit(site))
+			in.changed = true
+		}
+		return
+	case "time.Since", "time.Sleep", "time.After", "time.Tick", "time.NewTimer", "time.NewTicker", "time.AfterFunc",
 		"github.com/oklog/ulid/v2.Now", "github.com/oklog/ulid/v2.Timestamp", "github.com/oklog/ulid/v2.DefaultEntropy",
 		"github.com/oklog/ulid/v2.MustNew", "github.com/oklog/ulid/v2.New",
-		"os.Getpid", "os.Getenv", "os.Hostname", "runtime.NumGoroutine", "runtime.Gosched":
+		"os.Getpid", "os.Hostname", "os.Environ", "runtime.NumGoroutine", "runtime.Gosched", "runtime.NumCPU", "runtime.GOMAXPROCS":
 		if in.full {
 			in.rep.Uncontrolled = append(in.rep.Uncontrolled, in.site("call "+full, call.Pos(), ""))
 		}
